@@ -446,3 +446,56 @@ def elf_requests(rng, info, virt, zero_excluded, limit=40):
                 reqs.append("R%s:%x:%x" % (a, addr, n))
     rng.shuffle(reqs)        # the last_load / last_vload shortcut sees every order
     return reqs
+
+
+# ---------------------------------------------------------------------------
+# SADUMP
+# ---------------------------------------------------------------------------
+
+def gen_sadump(rng, big=False):
+    """One SADUMP layout (single partition, disk set, media backup) + image."""
+    kind = rng.choice(["s", "s", "d", "d", "d", "m"])
+    bs = rng.choice([4096, 4096, 4096, 8192, 2048, 16384])
+    ver = rng.randint(0, 1)
+    ncpu = rng.randint(1, 3)
+    lma = [rng.random() < 0.6 for _ in range(ncpu)]
+    if rng.random() < 0.3:
+        lma = [False] * ncpu                                   # ia32
+    cpusz = rng.choice([1024, 1024, 1032, 2048])
+    sub = (4 + 16 * ncpu + cpusz * ncpu + bs - 1) // bs + rng.choice([0, 0, 1])
+    dmb = rng.choice([1, 1, 2])
+    cover = dmb * bs * 8
+    r = rng.random()
+    maxmapnr = (rng.randint(1, 0x140) if r < 0.6 else cover - rng.randint(0, 9) if r < 0.8
+                else rng.randint(1, cover))
+    pfns = pfn_set(rng, maxmapnr, 12)
+    entries = [None] * ((pfns[-1] + 1) if pfns else 0)
+    for p in pfns:
+        entries[p] = (0, b"", page_content(rng, 4096))
+    ndisk = 1
+    dpages = []
+    if kind == "d":
+        # every further disk holds at least one page: a member that is exactly one block long
+        # makes verify_magic_number read the word at EOF through the mmap window (defect 8, SIGBUS)
+        ndisk = rng.randint(1, max(1, min(4, len(pfns))))
+        left = len(pfns)
+        for i in range(ndisk):
+            rest = ndisk - 1 - i
+            c = left if rest == 0 else rng.randint(0 if i == 0 else 1, left - rest)
+            dpages.append(c)
+            left -= c
+    vols = [bytes(rng.getrandbits(8) for _ in range(16)) for _ in range(ndisk)]
+    order = list(range(ndisk))
+    rng.shuffle(order)
+    membits = "".join(rng.choice("01") for _ in range(rng.randint(0, 64)))
+    lay = {"kind": kind, "bs": hx(bs), "ver": hx(ver), "maxmapnr": hx(maxmapnr), "cpusz": hx(cpusz),
+           "lma": "".join("1" if b else "0" for b in lma), "sub": hx(sub), "bmb": hx(rng.choice([1, 2])),
+           "dmb": hx(dmb), "membits": membits,
+           "ids": hexb(bytes(rng.getrandbits(8) for _ in range(48))),
+           "vols": ".".join(hexb(v) for v in vols), "dpages": ".".join(hx(c) for c in dpages),
+           "sethdr": hx(max(1, (16 + 32 * ndisk + bs - 1) // bs)), "magic0": hx(rng.choice([0, 0, 7, 0xfffffff0])),
+           "order": ".".join(str(d) for d in order)}
+    info = {"pgsz": 4096, "maxpfn": maxmapnr, "pfns": pfns, "nfiles": ndisk,
+            "key": "sadump %s bs%d v%d cpus%d %s disks%d" % (kind, bs, ver, ncpu,
+                                                             "x86_64" if any(lma) else "ia32", ndisk)}
+    return lay, entries, info
